@@ -20,7 +20,7 @@ def specs_for(ctx):
         dict(D=2, target="rosen", box="sym", noise="det", options=dict(max_fun_evals=150, complete_poll=True, accelerate_mesh=False), seed=ctx.seed * 10 + 3),
         dict(D=2, target="sphere", box="sym", noise="declared", sigma=0.2, options=dict(max_fun_evals=120, tol_mesh=1e-3), seed=ctx.seed * 10 + 4),
     ]
-    return specs + extra
+    return specs + extra + S.panel_nondefault(ctx.seed)
 
 
 def updown(tr, P):
